@@ -135,6 +135,7 @@ def fastavro_writes(F, ch, ctx):
         except Exception as e:  # noqa
             raise Violation("layout", "append-to-foreign-file-raises", detail=dict(info, exc=jsonable(e)), scenario=desc)
         data = fo.getvalue()
+        foreign_part = refavro.parse_container(fbytes).records   # what the peer itself stored (its own branch choices)
         info["appended_to_foreign"] = {"foreign_codec": fcodec, "first": cutp}
         sc.codec = fcodec
         sc.sync_marker = b""
@@ -163,7 +164,11 @@ def fastavro_writes(F, ch, ctx):
     if len(p.records) != len(sc.records):
         raise Violation("layout", "peer-record-count-differs", detail=dict(info, peer=len(p.records), written=len(sc.records)), scenario=desc)
     for i, (d, r) in enumerate(zip(sc.records, p.records)):
-        if not refavro.normal_eq(sc.node, d, r):
+        if "appended_to_foreign" in info and i < info["appended_to_foreign"]["first"]:
+            ok = refavro.value_eq(foreign_part[i], r)
+        else:
+            ok = refavro.normal_eq(sc.node, d, r)
+        if not ok:
             raise Violation("layout", "peer-record-differs", detail=dict(info, index=i, written=jsonable(d), peer=jsonable(r)), scenario=desc)
     recs = _tiling(F, data, p, desc, info, ctx)
     if len(recs) != len(p.records) or not all(refavro.value_eq(a, b) for a, b in zip(recs, p.records)):
